@@ -19,7 +19,8 @@ RULE = ('two real threads on one Enforcer fully loaded with the old files: R '
         'in policy.py.  Scenarios: main-file edit under a directory override '
         '(with/without the directory file touched), directory-file edit, '
         'registered defaults under a permissive default rule, deprecated '
-        'defaults, alias halves swapped (thorough).  Oracle: each thread\'s '
+        'defaults, two policy directories with no edit at all (no reload '
+        'may happen), alias halves swapped (thorough).  Oracle: each thread\'s '
         'decision equals its decision under the complete old or the complete '
         'new policy (computed single-threaded beforehand); no exception.  '
         'state = (scenario, schedule); non-trivial = >=1 preemption.')
@@ -76,6 +77,16 @@ def scenarios(P):
             'conf': {'enforce_new_defaults': False},
             'probes': [('n', ['old']), ('n', ['new']), ('n', [])],
         },
+        's6-two-dirs-no-edit': {
+            # nothing changes: on a correct reload logic NO reload happens and
+            # every schedule gives the settled decision
+            'old': {'policy.yaml': {'a': 'role:m'},
+                    'd1/o.yaml': {'a': 'role:d'},
+                    'd2/o.yaml': {'b': 'role:e'}},
+            'new': {},
+            'defaults': [], 'conf': {}, 'dirs': ['d1', 'd2'],
+            'probes': [('a', ['m']), ('a', ['d'])],
+        },
         's5-alias-halves-swap': {
             'old': {'policy.yaml': {'a': 'rule:h1 and rule:h2',
                                     'h1': 'role:p', 'h2': 'role:q'}},
@@ -91,13 +102,14 @@ TIERS = {
     'quick': dict(scen=['s1-main-edit-dir-override',
                         's1b-main-edit-dir-touched', 's2-dir-edit',
                         's3-defaults-permissive-default',
-                        's4-deprecated-defaults'],
+                        's4-deprecated-defaults', 's6-two-dirs-no-edit'],
                   bound=2, reduced=True, opcode=False,
                   probes={'s1-main-edit-dir-override': [2, 1],
                           's1b-main-edit-dir-touched': [1],
                           's2-dir-edit': [1],
                           's3-defaults-permissive-default': [2],
-                          's4-deprecated-defaults': [2]}),
+                          's4-deprecated-defaults': [2],
+                          's6-two-dirs-no-edit': [1]}),
     'thorough': dict(scen=None, bound=2, reduced=False, opcode=True,
                      probes=None),
 }
@@ -133,7 +145,9 @@ class Harness:
         w.mkdir('d1')
         for rel, body in self.sc['old'].items():
             w.write(rel, world.dumps_policy(body, 'json'))
-        conf = world.new_conf(w.root, policy_dirs=['d1'], **self.sc['conf'])
+        conf = world.new_conf(w.root,
+                              policy_dirs=self.sc.get('dirs', ['d1']),
+                              **self.sc['conf'])
         enf = P.Enforcer(conf)
         enf.suppress_deprecation_warnings = True
         d = self.sc['defaults']
@@ -154,7 +168,8 @@ class Harness:
             self.edit(w)
             new = bool(enf.enforce(name, {}, {'roles': roles}))
             # and from a cold start on the new files
-            conf = world.new_conf(w.root, policy_dirs=['d1'],
+            conf = world.new_conf(w.root,
+                                  policy_dirs=self.sc.get('dirs', ['d1']),
                                   **self.sc['conf'])
             e2 = self.P.Enforcer(conf)
             e2.suppress_deprecation_warnings = True
